@@ -16,7 +16,7 @@ def plan(ctx):
             coqk = k < n_coq
             jobs.append((ctx.rng.randrange(10**9), ctx.rng.randint(5, 8), 12 if coqk else ctx.rng.choice([20, 40, 40]), coqk))
     else:
-        n_hist, n_coq = 420, 60
+        n_hist, n_coq = 1000, 120
         for k in range(n_hist):
             coqk = k < n_coq
             length = 14 if coqk else ctx.rng.choice([40, 40, 80, 150, 300])
@@ -117,7 +117,7 @@ def run(ctx):
     # trees returned by the real samplers (the real composition of edits, including the particles' dictionary form)
     from . import C07
 
-    sres = C07.run_samplers(ctx, C07.sampler_plan(ctx, 18 if ctx.quick else 90, 5 if ctx.quick else 10))
+    sres = C07.run_samplers(ctx, C07.sampler_plan(ctx, 18 if ctx.quick else 180, 5 if ctx.quick else 10))
     C07.report_sampler_results(ctx, sres, "C06")
     ctx.extra["sampler_calls_checked"] = sum(sum(r["calls"].values()) for r in sres)
     ctx.log("sampler runs %d, trees checked %d" % (len(sres), ctx.extra["sampler_calls_checked"]))
